@@ -363,6 +363,16 @@ def r10_lossy_sends_are_the_api_only(ctx):
         n += 1
         R.check(bool(re.search(r"^jsonrpsee_core::server::subscription::SubscriptionSink::try_send$", c.body.path)), "C04.R10", "try_send-caller:%s" % fkey(c.body), "MethodSink::try_send is used by SubscriptionSink::try_send", "%s sends on the connection queue with try_send: when the queue is full the message (a notification the handler produced, a closing value, a rejection) is silently dropped" % short(c.body.path), where(c))
     R.floor("C04.R10", n, 1, "callers of MethodSink::try_send")
+    # ... and inside the sink itself the non-waiting channel operations live in MethodSink::try_send only: send / send_error
+    # / send_timeout wait for room (a `try_send` whose `Full` is mapped to Ok drops replies under back-pressure)
+    m = 0
+    for b in F.real_bodies():
+        if b.crate != CORE or is_test_body(b) or not re.search(r"^jsonrpsee_core::server::helpers::MethodSink::", b.path):
+            continue
+        m += 1
+        for c in b.calls_to(r"mpsc::(bounded::)?Sender::<.*>::(try_send|try_reserve\w*)$"):
+            R.check(bool(re.search(r"MethodSink::try_send$", b.path)), "C04.R10", "sink-nonwaiting:%s" % fkey(b), "the non-waiting channel send is MethodSink::try_send's", "%s puts its message on the connection queue with a non-waiting %s: when the queue is full the message (an error reply, a response) is dropped although the caller was told it was sent" % (short(b.path), (c.name() or "").split("::")[-1]), where(c))
+    R.floor("C04.R10.sink", m, 6, "MethodSink bodies")
 
 
 
